@@ -19,7 +19,13 @@ def gen_method(rng, stationary=None):
     st = rng.random() < 0.35 if stationary is None else stationary
     thr = rng.choice([0, 1, 2, 3, 4, 6]) * UNIT
     inst = None if rng.random() < 0.4 else [rng.choice([3, 5, 6, 8, 12]) * UNIT, 1]
+    scr = None
+    if not st and rng.random() < 0.35:
+        # screening surveys that do not fit into the crew's day: started on one day, completed (and
+        # measured) on a later one
+        scr = {"workday": rng.choice([4, 8]), "time": rng.choice([150, 200, 300, 420]), "travel": rng.choice([0, 0, 30])}
     return {
+        "scr": scr,
         "stationary": st,
         "rd": rng.choice([0, 0, 1, 2, 3]),
         "delay": rng.choice([0, 0, 1, 2, 3, 5]),
@@ -177,7 +183,9 @@ def oracle(ctx, hist, w):
     single = nm == 1
     inp = {"history": hist}
     seen = {"instant": 0, "pool": 0, "reinsert": 0, "stale_discarded": 0, "rejected": 0, "dropped": 0,
-            "inprogress": 0, "unattended": 0, "complete": 0, "decisions": 0, "dup": 0, "stale_strict": 0}
+            "inprogress": 0, "unattended": 0, "complete": 0, "decisions": 0, "dup": 0, "stale_strict": 0,
+            "multiday_screenings": sum(1 for sv in w.screen_log if sv["start"] < sv["completed"]),
+            "zero_rescreenings": 0}
 
     def V(sig, what, extra=None):
         d = dict(inp)
@@ -225,10 +233,19 @@ def oracle(ctx, hist, w):
                     V("C09:one-outstanding:pooled-and-queued", "site both pooled and queued", {"day": sn["day"], "site": k})
 
     # --- every insertion by a screening method ---------------------------------------------------
+    # completed screening surveys, from the observed survey log (completion date of the survey report)
     screened = {}
-    for dn, dd in enumerate(hist["days"]):
-        for (mi, s, p, q) in dd.get("screen", []):
-            screened.setdefault(s, []).append((dn, mi, Fraction(p, q)))
+    for sv in w.screen_log:
+        screened.setdefault(sv["site"], []).append((sv["completed"], sv["method"], sv["rate"]))
+
+    def processed(site, mi, upto_day):
+        """the measurements of method mi at the site that were due (completion day + reporting delay) up to
+        that day and not stale when they became due, in order — zero measurements included"""
+        return [r["rate"] for r in w.releases
+                if r["site"] == site and r["method"] == mi and r["day"] <= upto_day and r["tag"] <= r["dc"]]
+
+    def completed_upto(site, mi, upto_day):
+        return [r for (c, m_, r) in sorted(screened.get(site, []), key=lambda x: x[0]) if m_ == mi and c <= upto_day]
     flags = {}
     for e in w.queue_log:
         if not e["who"].startswith("M"):
@@ -245,6 +262,8 @@ def oracle(ctx, hist, w):
         else:
             kind = "reinsert"
         seen[kind] += 1
+        if len(e["rates"]) > 1 and any(x == 0 for x in e["rates"][1:]):
+            seen["zero_rescreenings"] += 1
         if new_request or e["ctx"] == "decision":
             flags[e["site"]] = flags.get(e["site"], 0) + 1
         det = {k: (str(v) if isinstance(v, Fraction) else v) for k, v in e.items() if k not in ("rates",)}
@@ -263,6 +282,23 @@ def oracle(ctx, hist, w):
                 else:
                     V("C09:provenance", "a queued plan carries a rate that is no released detection of its site", det)
                     break
+            # the detections behind the plan are exactly the newest due, non-stale measurements of the site
+            # (zero measurements included), read from the survey log — not from the plan's own list
+            seq = processed(e["site"], i, e["day"])
+            k_ = len(e["rates"])
+            if seq[len(seq) - k_:] != list(e["rates"]) or k_ > len(seq):
+                allc = completed_upto(e["site"], i, e["day"])
+                if e["rates"] and allc[len(allc) - k_:] == list(e["rates"]) and k_ <= len(allc):
+                    V("C09:before-reporting-delay", "a plan already carries a measurement whose screening survey was "
+                      "completed less than the reporting delay ago", det)
+                else:
+                    V("C09:filtered-rate:history-suffix", "the detections behind a queued plan are not the newest due "
+                      "measurements of its site (a measurement was skipped or taken too early)", det)
+            if kind == "pool" and not mp["stationary"] and 0 < k_ <= len(seq):
+                fr_, _ = expected_rates(mp, {"rates": seq[len(seq) - k_:], "windows": e["windows"]})
+                if fr_ < thr:
+                    V("C09:flag-below-threshold:history", "a site was flagged although its redundancy-filtered rate, "
+                      "recomputed from the screening history (zero measurements included), is below the threshold", det)
             # the detection date the plan reports is the day of an actual screening of that site by this
             # method with the newest rate of the plan (read from the history, not from the plan)
             if not any(dn == e["latest"] and mi == i and r == e["rates"][-1]
@@ -400,6 +436,21 @@ def oracle(ctx, hist, w):
         ndone = sum(1 for u in w.visits if u["site"] == v["site"] and u["outcome"] == "c" and u["day"] < v["day"])
         if nflag - ndone < 1:
             V("C09:followup-not-flagged", "the follow-up method planned a site without an unconsumed flag", v)
+        if single and o in ("c", "p"):
+            mp0 = hist["methods"][0]
+            seq = processed(v["site"], 0, v["day"])
+            k_ = len(v["rates"])
+            if k_ > len(seq) or seq[len(seq) - k_:] != list(v["rates"]):
+                V("C09:followup:history-suffix", "a follow-up survey rests on detections that are not the newest due "
+                  "measurements of the site", {k: (str(x) if isinstance(x, Fraction) else x) for k, x in v.items() if k != "rates"})
+            if not mp0["stationary"] and 0 < k_ <= len(seq):
+                fr, _ = expected_rates(mp0, {"rates": seq[len(seq) - k_:], "windows": v["windows"]})
+                thr0 = Fraction(*mp0["thr"])
+                inst0 = None if mp0.get("inst") is None else Fraction(*mp0["inst"])
+                if not (fr >= thr0 or (inst0 is not None and fr >= inst0)):
+                    V("C09:followup-below-threshold", "a follow-up survey at a site whose redundancy-filtered rate "
+                      "(recomputed from the screening history) is below the threshold",
+                      {"day": v["day"], "site": v["site"], "recomputed": str(fr)})
         if single:
             if v["latest"] + hist["methods"][0]["rd"] > v["day"]:
                 V("C09:before-reporting-delay", "a follow-up visit before the reporting delay had passed", v)
